@@ -46,6 +46,9 @@ CHECKS = {
     "C14": ("property-based testing: metamorphic relation (injective label renaming, permutations within the temporary and the saved register class)",
             "Generated-input search: renamed programs must get the same located diagnostics with registers mapped through the permutation. Exploration.",
             "Trusts the renderer's source map.", "5/C14"),
+    "C15": ("property-based testing: metamorphic relation split-with-.include vs pasted single file, reader fault injection, differential CLI vs in-memory reader",
+            "Generated-input search over programs x include trees x reader faults: located diagnostics of the split program must equal those of the pasted file, failing includes must be reported on their path operand, the CLI must show/count the same items and terminate (CPU-time limit, not wall clock). Exploration.",
+            "Trusts the in-memory reader's notion of 'already read' (by path) and the renderer's source map.", "5/C15"),
     "C16": ("property-based testing with fault injection: CFG-level faults of 12 kinds injected into parse-clean generated programs",
             "Generated-input search: undefined/duplicate labels must be named at an occurrence; every other error that stops the analysis must be specific, attached to a user file and located. Exploration.",
             "Label definitions/uses are computed from the model, locations through the renderer's source map.", "5/C16"),
